@@ -1,6 +1,8 @@
 from abc import ABCMeta, abstractmethod
 from fnmatch import fnmatch
 
+import six
+
 
 class TapeCassette(object):
     """
@@ -152,8 +154,9 @@ class TapeCassette(object):
         if recorded_value is None and match_value is not None:
             return False
 
-        if isinstance(match_value, str):
-            return fnmatch(recorded_value, match_value)
+        if isinstance(match_value, six.string_types):
+            # Pattern matching is only defined against recorded strings, anything else is not a match
+            return isinstance(recorded_value, six.string_types) and fnmatch(recorded_value, match_value)
 
         return recorded_value == match_value
 
@@ -165,14 +168,21 @@ class TapeCassette(object):
         result = False
         if metadata_value['operator'] == '=':
             result = recorded_value == metadata_value['value']
-        if metadata_value['operator'] == '<':
-            result = recorded_value < metadata_value['value']
-        if metadata_value['operator'] == '<=':
-            result = recorded_value <= metadata_value['value']
-        if metadata_value['operator'] == '>':
-            result = recorded_value > metadata_value['value']
-        if metadata_value['operator'] == '>=':
-            result = recorded_value >= metadata_value['value']
+        if recorded_value is None:
+            # A missing recorded value is never in range
+            return result
+        try:
+            if metadata_value['operator'] == '<':
+                result = recorded_value < metadata_value['value']
+            if metadata_value['operator'] == '<=':
+                result = recorded_value <= metadata_value['value']
+            if metadata_value['operator'] == '>':
+                result = recorded_value > metadata_value['value']
+            if metadata_value['operator'] == '>=':
+                result = recorded_value >= metadata_value['value']
+        except TypeError:
+            # Values that cannot be compared are not in range
+            return False
 
         return result
 
